@@ -78,16 +78,16 @@ class Ctx:
             return 'void'
         if k in ('vector', 'array'):
             et = self.ctype(t[2])
-            key = ('V' if k == 'vector' else 'A') + '%d_%s' % (t[1], self.tykey(t[2]))
+            key = self.prefix + ('V' if k == 'vector' else 'A') + '%d_%s' % (t[1], self.tykey(t[2]))
             if key not in self.typedefs:
                 self.typedefs[key] = 'struct %s { %s e[%d]; };' % (key, et, max(t[1], 1))
                 self.typedef_order.append(key)
             return 'struct ' + key
         if k == 'struct':
-            key = 'S_' + '_'.join(self.tykey(f) for f in t[1]) + ('_p' if t[2] else '')
+            key = self.prefix + 'S_' + '_'.join(self.tykey(f) for f in t[1]) + ('_p' if t[2] else '')
             if len(key) > 200:
                 import hashlib
-                key = 'S_h' + hashlib.md5(key.encode()).hexdigest()[:16]
+                key = self.prefix + 'S_h' + hashlib.md5(key.encode()).hexdigest()[:16]
             if key not in self.typedefs:
                 fields = ' '.join('%s f%d;' % (self.ctype(f), i) for i, f in enumerate(t[1]))
                 if not t[1]:
@@ -1066,6 +1066,11 @@ class FuncEmitter:
         mm = re.match(r'^(llvm\.[a-z0-9]+)\.(f32|f64|v(\d+)f(32|64))$', name)
         if mm and mm.group(1) in FLOAT_INTRINSICS:
             cn = FLOAT_INTRINSICS[mm.group(1)]
+            if cn in ('fmin', 'fmax'):
+                # LangRef llvm.minnum/maxnum (= libm fmin/fmax): for operands +0 and -0 either zero may be returned, so two
+                # correct compilations may differ in that sign bit.  The marker (it contains 'nsz') makes the T-check
+                # compare zero results by value for this build; CBMC's fmin/fmax model is one permitted choice.
+                self.ctx.trusted.add('llvm.minnum/maxnum: sign of a zero result unspecified (nsz-like), one permitted choice modelled')
             if mm.group(3):
                 n = int(mm.group(3))
                 suf = 'f' if mm.group(4) == '32' else ''
